@@ -7,6 +7,7 @@ remain, all statuses are in the rerun set and none in the stop set; that executi
 reused; that each node records the statuses reported for its own executions; and that the runner's verdict
 equals "every executed test has an acceptable result".  Invalid settings must end the run with an error.
 """
+from .. import common as C
 from ..sched import driver as D
 
 PID = "C10"
@@ -14,7 +15,64 @@ STAT = ["PASS", "FAIL", "ERROR", "WARN", "SKIP", "CANCEL", "INTERRUPTED"]
 INVALID = [{"max_tries": "-1"}, {"max_tries": "x"}, {"max_tries": "2", "rerun_status": "bogus"}, {"max_tries": "2", "stop_status": "fail,nonsense"}]
 
 
+def executions_of(res):
+    """(class, worker, full name, uid, status) of every finished execution of a recorded run, in end order"""
+    open_, out = {}, []
+    for e in res["events"]:
+        if e["a"] in ("start", "prestart"):
+            open_[(e["w"], e["t"])] = e
+        elif e["a"] in ("endrun", "preend") and (e["w"], e["t"]) in open_:
+            st = open_.pop((e["w"], e["t"]))
+            if e["a"] == "endrun" and e.get("s") not in (None, "-", "LOST", "RUN"):
+                out.append((e["t"], e["w"], st["name"], st["uid"], e["s"]))
+    return out
+
+
+def make_replay_jobs(inst, rng, n):
+    """phase A: complete jobs on the same selection without replay; phase B (returned): each replays one of them -
+    its result file as previous results, its final pool with some states removed, under its own retry settings"""
+    import os
+    from ..sched import pool as P
+    base = {k: v for k, v in inst.params.items() if k != "replay"}
+    first = D.make_instance(inst.name, base).prepare()
+    w = [5, 3, 2, 1, 1, 1, 1]
+    jobs_a = [{"sched": {"seed": rng.randrange(1 << 30), "statuses": STAT, "weights": w}, "store": D.random_store(first, rng, rng.choice([0.0, 0.0, 0.6])),
+               "run_params": {}, "cap": 6000} for _ in range(max(4, n // 3))]
+    res_a = [r for r in P.run_jobs(first, jobs_a, os.path.join(C.build_dir(PID), "replay_first_" + inst.name)) if "harness_error" not in r and r["outcome"] == "done"]
+    if not res_a:
+        raise C.MachineryError("no first job completed for the replay campaign on %s" % inst.name)
+    jobs = []
+    for i in range(n):
+        a = res_a[i % len(res_a)]
+        ex = executions_of(a)
+        kind = rng.choice(["all", "all", "subset", "none"])
+        if kind == "subset":
+            ex = [x for x in ex if rng.random() < 0.6]
+        elif kind == "none":
+            ex = []
+        store = {k: list(v) for k, v in a["final_store"].items()}
+        if rng.random() < 0.6:
+            # some of the states produced by the first job are gone
+            for k in store:
+                store[k] = [x for x in store[k] if rng.random() < rng.choice([0.3, 0.8])]
+        rp = {}
+        r = rng.random()
+        if r < 0.3:
+            rp["max_tries"] = str(rng.choice([2, 3, 3, 4]))
+        if 0.2 < r < 0.5:
+            rp["rerun_status"] = rng.choice(["fail", "fail,error", "fail,error,warn,skip", "error"])
+        elif r > 0.85:
+            rp["stop_status"] = rng.choice(["error", "fail", "warn"])
+        jobs.append({"sched": {"seed": rng.randrange(1 << 30), "statuses": STAT, "weights": w}, "store": store, "run_params": rp, "cap": 6000,
+                     # the fields of a results.json test entry that the plugin reads
+                     "previous": [{"id": "%s-%s" % (x[3], x[2]), "name": x[2], "status": x[4], "time_elapsed": round(rng.uniform(1, 50), 2)} for x in ex],
+                     "settings": {"prev": [{"t": x[0], "w": x[1], "s": x[4]} for x in ex]}})
+    return jobs
+
+
 def make_jobs(inst, rng, n):
+    if inst.params.get("replay"):
+        return make_replay_jobs(inst, rng, n)
     jobs = []
     for i in range(n):
         if i % 8 == 7:
@@ -35,7 +93,7 @@ def make_jobs(inst, rng, n):
 
 
 def settings_of(job):
-    return {"norerunrule": bool(job.get("invalid"))}
+    return dict(job.get("settings", {}), norerunrule=bool(job.get("invalid")))
 
 
 def signature(inst, res, f):
@@ -62,12 +120,16 @@ def post(inst, good, traces, v):
 
 def run(tier, seed):
     quick = tier == "quick"
-    plan = [("tut1x1", None, 32), ("tut13x3", None, 56), ("guix2", None, 24)] if quick else \
-           [("tut1x1", None, 400), ("tut13x2", None, 400), ("tut13x3", None, 300), ("guix2", None, 300), ("minx2", None, 200), ("tut13c", None, 200)]
+    rj = {"replay": "previous-job"}
+    plan = [("tut1x1", None, 32), ("tut13x3", None, 56), ("guix2", None, 24), ("tut13x2", rj, 32)] if quick else \
+           [("tut1x1", None, 400), ("tut13x2", None, 400), ("tut13x3", None, 300), ("guix2", None, 300), ("minx2", None, 200), ("tut13c", None, 200),
+            ("tut13x2", rj, 300), ("tut1x1", rj, 150), ("guix2", rj, 150), ("tut13x3", rj, 150)]
     return D.generic_run(PID, tier, seed, plan, make_jobs, signature, describe, explore_plan=D.explore_plan(tier, ['NoC10'], retries=True), settings_of=settings_of, post=post,
                          rule="randomized outcome sequences over 7 reportable statuses x max_tries {0,1,2,3} x rerun/stop subsets x initial pools; "
-                              "invalid settings (-1, x, unknown status names) must raise; TLC validates tries rule, uid freshness, own results, verdict",
-                         assumptions=["replay of previous jobs is exercised by the separate replay jobs only when listed in instances"])
+                              "invalid settings (-1, x, unknown status names) must raise; TLC validates tries rule, uid freshness, own results, verdict; "
+                              "replay jobs: previous results of a complete first job x kept/removed states x retry settings, TLC validates the replay rule",
+                         assumptions=["a replayed job is a complete earlier run of the same selection in the same environment model; its result file is "
+                                      "all, part or none of the recorded results and its final pool is kept or partly removed"])
 
 
 def replay(path):
